@@ -26,11 +26,12 @@ def fixture_classes(tier: str, seed: int):
     """(class, strategy) pairs to derive forms from."""
     from .universes import words as W
 
-    pats_ab = [["aa"], ["ab"], ["ba"], ["aba", "bb"], ["aa", "ab"], ["aa", "aaa"], ["b", "aa"], ["aab", "bba"], []]
+    pats_ab = [["aa"], ["ab"], ["ba"], ["ab", "ba"], ["aba", "bb"], ["aa", "ab"], ["aa", "aaa"], ["b", "aa"], ["aab", "bba"], []]
     prefixes = ["", "a", "b", "ab", "ba", "aab", "bb", "bba", "abba", "bab"]
     stats = ["s0", "s1", "s2", "s2t", "s2m", "s3d", "s2x"] if tier == "thorough" else ["s0", "s2", "s2t", "s2m", "s3d"]
     out = []
-    strategies = [W.Expand(), W.ExpandTrim(), W.RemoveFront(), W.RemoveFrontRename(), W.SplitFront(), W.SplitMonotone(), W.Swap(),
+    strategies = [W.Expand(), W.ExpandTrim(), W.ExpandTrimRename(), W.RemoveFront(), W.RemoveFrontHidden(), W.RemoveFrontRename(), W.SplitFront(),
+                  W.SplitMonotone(), W.Swap(),
                   W.MinimizePatterns(), W.MergeStats(), W.RenameStats()]
     for pats in pats_ab:
         for pre in prefixes:
@@ -53,17 +54,17 @@ def fixture_classes(tier: str, seed: int):
     rnd.shuffle(out)
     if tier == "quick":
         # the strategies that exist for one specific mechanism are never sampled away
-        special = ("SplitMonotone", "ExpandTrim", "RemoveFrontRename", "RenameStats", "SplitFront", "Cycle", "MergeStats")
+        special = ("SplitMonotone", "ExpandTrim", "ExpandTrimRename", "RemoveFrontHidden", "RemoveFrontRename", "RenameStats", "SplitFront", "Cycle", "MergeStats")
         first = [x for x in out if type(x[1]).__name__ in special]
         per = {}
         keep = []
         for x in first:
             k = type(x[1]).__name__
             per[k] = per.get(k, 0) + 1
-            if per[k] <= 40:
+            if per[k] <= 30:
                 keep.append(x)
         rest = [x for x in out if x not in keep]
-        out = (keep + rest)[:460]
+        out = (keep + rest)[:520]
     return out
 
 
